@@ -6,8 +6,9 @@ LEVEL = 'proof'
 
 def build(ctx):
     import contracts.relocate  # noqa
-    common.pass_tasks(ctx, ['transform_pseudo_instructions', 'transform_compressible', 'resolve_immediates'])
+    common.pass_tasks(ctx)      # all five layout passes: the documented target is reached only if every label stays exact
     ctx.task('contracts.relocate:task_relocate')
+    ctx.task('contracts.pipeline:task_pipeline')      # assemble() establishes what each pass contract assumes
     ctx.task('contracts.exprs:task_exprs')
     common.encoder_tasks(ctx, lambda m: m in ('addi', 'xori', 'sltiu', 'sub', 'sltu', 'slt', 'lui', 'auipc', 'jal', 'jalr', 'beq', 'bne',
                                                'blt', 'bge', 'bltu', 'bgeu', 'fence'), parts=('legal', 'decode'))
